@@ -21,6 +21,9 @@ def in_scope(t):
         return False
     if p['flags'].get('multi_trigger') or p['flags'].get('sub'):
         return False
+    # (an action that reports "cancelled" is outside the model)
+    if any('cancel' in row for d_ in p['tasks'].values() for row in d_['outcome']):
+        return False
     for n, d in p['tasks'].items():
         # retry, wait-before, wait-after, timeout and with-items (with concurrency) are modelled; pause-before, fail-on,
         # sub-workflows and with-items combined with another policy are not
